@@ -57,4 +57,12 @@ def NoRefAt4k : Nat → List Nat → Prop
   | _, [] => True
   | pos, len :: rest => (len > 1 → (pos &&& 4095) < 4093) ∧ NoRefAt4k (pos + len) rest
 
+/-- the token lengths the predictor commits for a block list: stored bytes one by one -/
+def blockLens : Block → List Nat
+  | .stored _ data => List.replicate data.length 1
+  | .fixed ts => ts.map tokenLen
+  | .dynamic _ ts => ts.map tokenLen
+
+def streamLens (bs : List Block) : List Nat := bs.flatMap blockLens
+
 end Preflate.Chains
